@@ -92,6 +92,7 @@ def run_oracle(rep, orc, rng, tier, kind="rel", budget_scale=1.0):
     fails = []
     for i, (l, o) in enumerate(zip(lines, outs)):
         rep.count(orc.name, l, nontrivial=True)
+        orc.last_err = errs.get(i, "")
         j = orc.judge(l, o)
         if j:
             tag, detail = j
@@ -126,7 +127,13 @@ def replay_known(rep):
             exe = vlib.build_driver(rp["driver"], "rel", rp.get("extra_cflags", ""))
         except vlib.BuildError:
             continue
-        line = rp["line"] if "line" in rp else (rp.get("component", "lyx") + "\t" + encode_script(rp["script"]))
+        if "corpus_line" in rp:
+            fn, idx = rp["corpus_line"]
+            line = [l.rstrip("\n") for l in open(os.path.join(vlib.VERIF, fn)) if l.strip() and not l.startswith("#")][idx]
+        elif "line" in rp:
+            line = rp["line"]
+        else:
+            line = rp.get("component", "lyx") + "\t" + encode_script(rp["script"])
         outs, _ = vlib.run_cases(exe, [line], timeout=120)
         still = bool(re.search(rp["still_fails_if"], outs[0])) if outs else False
         rep.count("known:" + k["tag"], line)
